@@ -90,6 +90,8 @@ def replay_failure(inst, prep_ll, wd, failure, out_path):
     env['UBSAN_OPTIONS'] = 'halt_on_error=1:exitcode=24'
     if inst.get('engine') == 'cbmc-seq':
         env['VF_SCHED_POINTS'] = '1'
+    for k_, v_ in (inst.get('rt_defs') or {}).items():  # runtime-model options are visible to the native runtime too
+        env[k_] = str(v_)
     env['VF_KEEP_GOING'] = '1'  # report every failing vf_check of the run, not only the first
     rc, out, errt, t = engine.sh([exe], timeout=60, env=env)
     tail = (errt or '')[-1200:]
